@@ -4,13 +4,17 @@
   Full statement (DESIGN.md section 7): running `data c (auth ++ rest)`, then any events `es` not about
   `c`, then the verdict, gives the observable state of running `es` first and then `data c (auth ++ rest)`
   against a synchronous store answering the same.  What is proved here is that statement decomposed into
-  its three load-bearing parts (`parks`, `pending_inert`, `verdict_*`); the single end-to-end commutation
-  theorem across two store configurations is NOT proved (named `verdict_commutes` in DESIGN.md; it would
-  additionally need "events not about c commute with c's own handler", which `C10.untouched_by_others`
-  gives for c's record but not yet for the registry and gauges).
+  its load-bearing parts: `parks` (the bytes behind OP_AUTH stay in the unpacker verbatim),
+  `pending_inert` (whatever else happens in between does not touch them), `verdict_is_sync_now` (the
+  property's last sentence, literally: the state after a successful verdict IS the state a synchronous store
+  answering the same would produce by handling OP_AUTH ++ the parked bytes at that moment), `verdict_failure`
+  (never after a failed look-up).  What is NOT proved is the re-ordering form of DESIGN.md's
+  `verdict_commutes` (moving the events in between across c's handler); the property does not ask for it:
+  it compares with a synchronous store consulted "at the moment the lookup completed".
 -/
 import Hpfeeds.Lemmas.BrokerFrame
 import Hpfeeds.Lemmas.BrokerStep
+import Hpfeeds.Lemmas.BrokerStore
 namespace Hpfeeds.C14
 open Hpfeeds Hpfeeds.Broker Extracted
 
@@ -94,6 +98,42 @@ theorem sync_auth_success (cfg : Cfg) (s : State) (c : Nat) (x : Conn) (f : Fram
     hok, if_true]
   rfl
 
+/-- THE VISIBLE OUTCOME IS THAT OF A SYNCHRONOUS STORE CONSULTED AT THE MOMENT THE LOOK-UP COMPLETED.
+    In ANY state in which `c` has the look-up `(ident, digest)` pending, for ANY table `tbl` that answers
+    `ident ↦ row` with a matching digest: the state after the verdict `row` equals — exactly, field by field,
+    every connection's log, the registry, the gauges, the accepted log — what the frame loop of the
+    SYNCHRONOUS store `tbl` produces from the state as it is now when it handles the OP_AUTH frame followed
+    by the parked bytes, then (as `data_received` does) stores the unpacker's rest and resumes reading, or
+    closes if a handler raised.  Side condition: the parked bytes do not park again behind a further OP_AUTH
+    (then the comparison applies to that look-up in turn). -/
+theorem verdict_is_sync_now (cfg : Cfg) (hstore : cfg.store = .async) (tbl : Bytes → Option Row)
+    (s : State) (c i : Nat) (x : Conn) (ident digest : Bytes) (row : Row) (f : Frame)
+    (hx : s.conn c = some x) (hp : x.pending[i]? = some (ident, digest)) (hreg : x.registered = true)
+    (ht : tbl ident = some row) (hok : cfg.H (x.nonce ++ row.secret) = digest)
+    (hf : f.WF) (hrd : read f = some (.ok (.auth ident digest)))
+    (hnb : (loop cfg c (logAct (setAuth (dropPending s c i) c ident digest row) c (.setLimits (limit OP_PUBLISH * 50)))
+      x.buf).2.2 ≠ .brk) :
+    step cfg s (.lookupDone c i (.row row)) =
+      (let l := loop (withSync cfg tbl) c (dropPending s c i) (enc f ++ x.buf)
+       let s2 := setBuf l.1 c l.2.1
+       if l.2.2 = .crash then closeT s2 c else resumeReading s2 c) := by
+  have hauth : authOk cfg x digest (.row row) = some row := by simp [authOk, hok]
+  rw [verdict_success cfg s c i x ident digest (.row row) row hx hp hauth]
+  -- the synchronous loop takes the OP_AUTH frame first ...
+  have hx0 : (dropPending s c i).conn c = some { x with pending := x.pending.eraseIdx i } := by
+    simp [dropPending, hx]
+  have hh : header (enc f ++ x.buf) = .ok (5 + f.body.length) f.op := header_enc_append f x.buf hf
+  have hpop := popFrame_enc_append f x.buf
+  have hmsg : messageReceived (withSync cfg tbl) (dropPending s c i) c f =
+      (logAct (setAuth (dropPending s c i) c ident digest row) c (.setLimits (limit OP_PUBLISH * 50)), .cont) :=
+    sync_auth_success (withSync cfg tbl) (dropPending s c i) c _ f ident digest tbl row hx0 hreg rfl hrd ht hok
+  have hl : loop (withSync cfg tbl) c (dropPending s c i) (enc f ++ x.buf) =
+      loop (withSync cfg tbl) c (logAct (setAuth (dropPending s c i) c ident digest row) c (.setLimits (limit OP_PUBLISH * 50))) x.buf := by
+    rw [loop_ok' hh, hpop, hmsg]
+  -- ... and from there on the store is irrelevant
+  rw [hl, loop_store_irrelevant cfg tbl hstore c _ _ hnb]
+  simp only [hnb, if_false]
+
 /-- A failed look-up (unknown ident, wrong digest, or the store raising): OP_ERROR + close, and that is
     all — the parked bytes are still in the buffer, untouched, and are never processed: the connection is
     closing (no more `data`), and by C04.no_publish_after_close nothing is ever delivered to it. -/
@@ -134,5 +174,21 @@ example : ((run exCfg [.connect 1 [1,2,3,4], .data 1 exChunk, .lookupDone 1 0 (.
       some (some [97], [[99]], false, 0, [pubFrame [97] [99] [7]]) := by decide +kernel
 example : ((run exCfg [.connect 1 [1,2,3,4], .data 1 exChunk, .lookupDone 1 0 .missing]).conn 1).map
     (fun y => (y.ak, y.active, y.closing, y.buf.length)) = some (none, [], true, 18) := by decide +kernel
+
+/-- the comparison is not vacuous: the example above, against the synchronous store that knows `a` -/
+def exTbl : Bytes → Option Row := fun i => if i = [97] then some exRow else none
+example : step exCfg (run exCfg [.connect 1 [1,2,3,4], .data 1 exChunk]) (.lookupDone 1 0 (.row exRow)) =
+    (let l := loop (withSync exCfg exTbl) 1 (dropPending (run exCfg [.connect 1 [1,2,3,4], .data 1 exChunk]) 1 0)
+      (enc ⟨2, [1,97,1,2,3,4,115]⟩ ++ ([0,0,0,8,4,1,97,99] ++ [0,0,0,10,3,1,97,1,99,7]))
+     let s2 := setBuf l.1 1 l.2.1
+     if l.2.2 = .crash then closeT s2 1 else resumeReading s2 1) := by
+  have hx : (run exCfg [.connect 1 [1,2,3,4], .data 1 exChunk]).conn 1 =
+      some (((run exCfg [.connect 1 [1,2,3,4], .data 1 exChunk]).conn 1).get (by decide +kernel)) := by simp
+  refine verdict_is_sync_now exCfg rfl exTbl _ 1 0 _ [97] [1,2,3,4,115] exRow ⟨2, [1,97,1,2,3,4,115]⟩ hx
+    (by decide +kernel) (by decide +kernel) rfl (by decide +kernel) (by decide +kernel) (by rfl) ?_ |>.trans ?_
+  · decide +kernel
+  · have hb : (((run exCfg [.connect 1 [1,2,3,4], .data 1 exChunk]).conn 1).get (by decide +kernel)).buf =
+        [0,0,0,8,4,1,97,99] ++ [0,0,0,10,3,1,97,1,99,7] := by decide +kernel
+    rw [hb]
 
 end Hpfeeds.C14
